@@ -60,6 +60,13 @@ def confirm(src, name):
                 flags = "-std=c++17 -O1 -g -fsanitize=thread -pthread"
         except (OSError, ValueError):
             pass
+        try:
+            with open(os.path.join(src, "meta.json")) as f:
+                dstd = json.load(f).get("demo_std")
+            if dstd:   # the change only shows under another language level than the default one
+                flags = flags.replace("-std=c++17", "-std=" + dstd)
+        except (OSError, ValueError):
+            pass
         res["demo_flags"] = flags
         rc1, o1 = sh("g++ %s -I%s/include %s -o %s && %s" % (flags, wt, demo, exe, exe))
         rc2, o2 = sh("g++ %s -I/repo/include %s -o %s && %s" % (flags, demo, exe, exe))
